@@ -118,6 +118,18 @@ fn red_sum(terms: &[X], min: i128, max: i128, pre_must: bool) -> Red {
     let must = pre_must || !fits(tot, min, max);
     Red { val: tot, must, may: may || must }
 }
+/// left-to-right fold, as the documentation of element_sum / element_product spells it
+/// (`self.x + self.y + ..`): a panic is required exactly when some prefix leaves the range
+fn red_fold_strict(terms: &[X], min: i128, max: i128, product: bool) -> Red {
+    let cap = |s: X| if s.e.unsigned_abs() > (1u128 << 70) { X { e: s.e.signum() << 70, w: s.w } } else { s };
+    let mut acc = terms[0];
+    let mut must = false;
+    for t in &terms[1..] {
+        acc = if product { cap(acc * *t) } else { acc + *t };
+        must |= !fits(acc, min, max);
+    }
+    Red { val: acc, must, may: must }
+}
 fn red_prod(terms: &[X], min: i128, max: i128) -> Red {
     let n = terms.len();
     // magnitudes are capped at 2^70 (beyond every lane type's range; a later factor 0 still gives 0),
@@ -315,8 +327,8 @@ macro_rules! c13_type {
                     let sq: Vec<X> = (0..N).map(|i| ai[i] * ai[i]).collect();
                     let sm = sq.iter().any(|p| !fits(*p, smin, smax));
                     red!("length_squared", va.length_squared(), red_sum(&sq, smin, smax, sm), S, smin, smax);
-                    red!("element_sum", va.element_sum(), red_sum(&ai, smin, smax, false), S, smin, smax);
-                    red!("element_product", va.element_product(), red_prod(&ai, smin, smax), S, smin, smax);
+                    red!("element_sum", va.element_sum(), red_fold_strict(&ai, smin, smax, false), S, smin, smax);
+                    red!("element_product", va.element_product(), red_fold_strict(&ai, smin, smax, true), S, smin, smax);
                     // manhattan / chebyshev: results in the unsigned counterpart type
                     let ad: Vec<X> = (0..N).map(|i| (ai[i] - bi[i]).abs()).collect();
                     red!("manhattan_distance", va.manhattan_distance(vb), red_sum(&ad, umin, umax, false), $US, umin, umax);
@@ -359,6 +371,20 @@ macro_rules! c13_type {
                 let (a, b) = place(latr[d[0]], latr[d[1]], d[2], d[3]);
                 binary(a, b, acc);
             });
+            // every N-tuple over seven extreme values as the first operand (second operand: three fixed
+            // tuples): horizontal reductions see every combination of lanes, e.g. (MIN, 0, MAX, 1), where
+            // the documented left-to-right sum does not overflow but another association does
+            {
+                let ext: [S; 7] = if S::MIN != 0 { [S::MIN, S::MIN + 1, (0 as S).wrapping_sub(1), 0, 1, S::MAX - 1, S::MAX] } else { [0, 1, 2, S::MAX / 2, S::MAX / 2 + 1, S::MAX - 1, S::MAX] };
+                let nt = 7u64.pow(N as u32);
+                rep.sweep(&format!("{TN}/binary/all {N}-tuples over 7 extreme values x 3 partners"), nt * 3, |idx, acc| {
+                    let mut k = idx % nt;
+                    let mut a = [0 as S; N];
+                    for i in 0..N { a[i] = ext[(k % 7) as usize]; k /= 7; }
+                    let b: [S; N] = match idx / nt { 0 => [1 as S; N], 1 => a, _ => core::array::from_fn(|i| ext[(i * 2 + 1) % 7]) };
+                    binary(a, b, acc);
+                });
+            }
             // 8-bit types: all 65536 operand pairs (every placement in release / thorough; the
             // all-lanes placement under overflow checks in the quick tier, where most pairs unwind)
             if BITS == 8 {
